@@ -293,6 +293,24 @@ func longLivedHistory(c *fw.Ctx, tag string, sweep func(disk string, pndb *util.
 		}
 		c.Count("rounds_on_a_long_lived_trie", 1)
 	}
+	// the way a finalised state is used: the saved trie is rebased onto the persistent store (the memory level is dropped);
+	// it must read the saved content, and what it writes from now on goes to the store directly
+	P.SetNodeDB(pndb)
+	if f := lab.CheckMap(P, cur, nil); f != "" {
+		c.Violate("", "long-lived trie rebased onto the persistent store after its last save: %s\nhistory: %s", f, strings.Join(c.Trace(), "\n"))
+		return
+	}
+	if _, ierr := P.Insert(util.Path("0a0b0c0d"), &lab.Val{B: []byte("after-rebase")}); ierr != nil {
+		c.Violate("", "insert on the rebased trie failed: %v", ierr)
+		return
+	}
+	after := lab.CopyContent(cur)
+	after["0a0b0c0d"] = []byte("after-rebase")
+	if f := checkReadable(disk, rSaved{version: int64(nrounds), root: append([]byte(nil), P.GetRoot()...), model: after}); f != "" {
+		c.Violate("", "a write through the rebased trie is not complete on the store: %s", f)
+		return
+	}
+	c.Count("long_lived_tries_rebased_onto_the_store", 1)
 	c.Count("long_lived_trie_histories", 1)
 	c.Distinct("nontrivial", fw.Hash64("long", c.Idx, len(saved)))
 }
@@ -756,7 +774,7 @@ func init() {
 		Rule: "each case is a history of 3..10 rounds on a persistent store (real PNodeDB over the logging/crashing grocksdb stand-in). A round = block trie layered over the store at the previous saved root, 1..4 child transactions (1..6 inserts/deletes each, including delete-then-recreate of " +
 			"identical content, re-creation of content deleted in earlier rounds, unchanged re-writes) merged or discarded, then an existence probe of the new root on the store, SaveChanges(includeDeletes=false), RecordDeadNodes and a completeness read of the saved root through the same store object; random PruneBelowVersion in between; about every 32nd history contains one fat round (300..1100 inserts: several hundred to more than a thousand changed nodes in one save). After each save every retained root is re-read on a re-opened store " +
 			"(HasMissingNodes, lookups, Iterate, raw stored bytes through the harness' parser). For EVERY prefix length i=0..W of the save's physical write stream the round is re-executed from a copy of the pre-round disk with the store crashing after i writes; after restart every earlier " +
-			"retained root must be fully readable and re-executing + re-saving the round must give the same root and a complete state; the same failure is also played as a transient write error (the same trie and store objects retry the save once the store accepts writes again: a retry that reports success must leave a complete state). A sixth of the histories instead keep ONE block-state trie object through all rounds (SetVersion per round, children merged into it, the growing pending set saved again every round, sometimes twice in a row) and re-read every saved root from the store alone after every save. non-trivial/distinct = distinct (history, round, crash index, root) points",
+			"retained root must be fully readable and re-executing + re-saving the round must give the same root and a complete state; the same failure is also played as a transient write error (the same trie and store objects retry the save once the store accepts writes again: a retry that reports success must leave a complete state). A sixth of the histories instead keep ONE block-state trie object through all rounds (SetVersion per round, children merged into it, the growing pending set saved again every round, sometimes twice in a row) and re-read every saved root from the store alone after every save; at the end the trie is rebased onto the persistent store (SetNodeDB), must read the saved content, and a write through it must be complete on the store. non-trivial/distinct = distinct (history, round, crash index, root) points",
 		Cases: func(tier string) int {
 			if tier == "thorough" {
 				return 48000
